@@ -38,8 +38,6 @@ def ebnf_cases(nlines, stride=1):
     from itertools import product
     k = 0
     for combo in product(range(len(_LINES)), repeat=nlines):
-        if not any(_LINES[i][0] == "S" for i in combo):
-            continue
         k += 1
         if k % stride == 0:
             yield ("ebnf", combo)
@@ -269,7 +267,9 @@ class C20(Prop):
         for i in case[1]:
             h, b = _LINES[i]
             heads.setdefault(h, []).append(("eps",) if b < 0 else _BODIES[b])
-        r = ctx.call(RecursiveAutomaton.from_ebnf, text)
+        # texts without a line for S are read with the start non-terminal A (the default start is S)
+        start = "S" if "S" in heads else "A"
+        r = ctx.call(RecursiveAutomaton.from_ebnf, text) if start == "S" else ctx.call(RecursiveAutomaton.from_ebnf, text, start)
         if not ctx.returns(r, "C20.ebnf.from_ebnf", text=text):
             return
         rsa = r.value
@@ -291,7 +291,7 @@ class C20(Prop):
                 ctx.expect(w is None, "C20.ebnf.box_language", text=text, box=h, witness=w)
         sb = ctx.call(lambda: rsa.start_box)
         if ctx.returns(sb, "C20.ebnf.start_box", text=text):
-            ctx.expect(sb.value.nonterminal.value == "S" and sb.value is rsa.get_box_by_nonterminal("S"), "C20.ebnf.start_box", text=text)
+            ctx.expect(sb.value.nonterminal.value == start and sb.value is rsa.get_box_by_nonterminal(start), "C20.ebnf.start_box", text=text)
         if len(case[1]) == 1:
             h, b = _LINES[case[1][0]]
             if b >= 0:
